@@ -4128,6 +4128,10 @@ Case_BaseLdurStur:
           if (q > 1 || !Support::bit_test(kValidEncodings, (q << 3) | element_type))
             goto InvalidInstruction;
 
+          // The source is a W register for B|H|S elements and an X register for D elements.
+          if (uint32_t(o1.as<Reg>().is_gp64()) != uint32_t(element_type == uint32_t(VecElementType::kD)))
+            goto InvalidInstruction;
+
           uint32_t lsb_index = element_type - 1u;
           uint32_t imm5 = 1u << lsb_index;
 
